@@ -438,6 +438,7 @@ func TestVerifC19Stress(t *testing.T) {
 				b, _ := bpv7.Builder().CRC(bpv7.CRC32).Source(vfNodeName + "app").Destination("dtn://faraway/inbox").CreationTimestampNow().Lifetime("1h").BundleCtrlFlags(0).PayloadBlock([]byte("stress")).Build()
 				s.submit(b)
 				count()
+				time.Sleep(2 * time.Millisecond) // keeps the number of stored bundles moderate
 			}
 		}()
 		time.Sleep(dur / time.Duration(rounds))
@@ -450,6 +451,7 @@ func TestVerifC19Stress(t *testing.T) {
 		case <-time.After(30 * time.Second):
 			s.failf("c19.stuck", "the node did not come to rest within 30 s after the stress")
 		}
+		s.barrier(s.inlet) // everything queued has been processed before the node is closed
 		mu.Lock()
 		n := events
 		mu.Unlock()
